@@ -121,9 +121,13 @@ def run_launch(params, order):
                 return conn['d']
             w.reactor.next_port = 46000
             try:
+                kw = {}
+                if params.get('sink'):
+                    import io
+                    kw['stdout'] = io.StringIO()          # the application wants Tor's output (launch(stdout=sys.stdout))
                 d = controller.launch(w.reactor, tor_binary='/usr/bin/tor-fake', connection_creator=creator, timeout=TIMEOUT,
                                       kill_on_stderr=params['kill_on_stderr'], data_directory=user_dir,
-                                      control_port=9051, socks_port=9050)
+                                      control_port=9051, socks_port=9050, **kw)
             except Exception as e:
                 return dict(viol=[('launch-raised', type(e).__name__, repr(e))], obs=('raised',), log=log)
             rec = DRec(d)
@@ -150,6 +154,14 @@ def run_launch(params, order):
                         st = params['ostyle']
                         if st == 'whole':
                             pp.outReceived(b'Oct 03 12:00:00.000 [notice] Tor 0.4.8.1 running\n' + MARKER_LINE)
+                        elif st == 'path8':
+                            # Tor prints paths as they are: a data directory under a home directory with a non-ASCII name
+                            pp.outReceived(b'Oct 03 12:00:00.000 [notice] Read configuration file "/home/zo\xc3\xab/torrc".\n' + MARKER_LINE)
+                        elif st == 'path8-split':
+                            line8 = b'Oct 03 12:00:00.000 [notice] Read configuration file "/home/zo\xc3\xab/torrc".\n'
+                            cut = line8.index(b'\xc3') + 1            # the chunk boundary falls inside the two-byte character
+                            pp.outReceived(line8[:cut])
+                            pp.outReceived(line8[cut:] + MARKER_LINE)
                         else:
                             k = st[1]
                             cut = MARKER_LINE.index(b'Opening') + k
@@ -167,7 +179,7 @@ def run_launch(params, order):
                             pass          # ProcessProtocol errors are logged by the reactor
                     elif step == 'C':
                         if 'd' not in conn:
-                            viol.append(('no-connection-attempt', 'after-marker' if params['ostyle'] == 'whole' else 'marker-split-across-chunks',
+                            viol.append(('no-connection-attempt', 'after-marker' if params['ostyle'] == 'whole' else ('8-bit-text-before-marker' if str(params['ostyle']).startswith('path8') else 'marker-split-across-chunks'),
                                          'the control-listener line was printed (%r), no connection attempted' % (params['ostyle'],)))
                             break
                         if params['connect'] == 'ok':
@@ -310,6 +322,10 @@ def param_sets(tier):
     out.append(dict(base, connect='refused', datadir='user-new', exit='code1'))
     out.append(dict(base, datadir='user-new', exit='code0'))
     out.append(dict(base, ostyle='absent'))
+    out.append(dict(base, sink=True))
+    out.append(dict(base, sink=True, ostyle='path8'))
+    out.append(dict(base, sink=True, ostyle='path8-split'))
+    out.append(dict(base, ostyle='path8'))
     marker_len = len(b'Opening Control listener')
     ks = range(1, marker_len)
     for k in ks:
